@@ -58,6 +58,9 @@ func arrivalOrderDecides(c *core.Ctx, name string) (decided, independent bool) {
 
 func checkArrivalOrderIndependence(c *core.Ctx, rule string, only ...string) int {
 	n := 0
+	saved, savedCPU := evalStepBudget, evalNumCPU
+	evalStepBudget, evalNumCPU = 400_000, 1
+	defer func() { evalStepBudget, evalNumCPU = saved, savedCPU }()
 	want := func(name string) bool {
 		if len(only) == 0 {
 			return true
@@ -262,7 +265,10 @@ func checkArrivalOrderIndependence(c *core.Ctx, rule string, only ...string) int
 				continue
 			}
 			if got != ref {
-				bad = append(bad, fmt.Sprintf("arrival order %v gives %q; in-order arrival gives %q", p, got, ref))
+				bad = append(bad, fmt.Sprintf("arrival order %v gives %q; in-order arrival gives %q", p, firstN(got, 300), firstN(ref, 300)))
+			}
+			if len(bad) >= 3 {
+				break
 			}
 		}
 		c.Ob(rule+"/"+cn.name+"/arrival-order-independence", len(bad) == 0, cn.pos, "%s", first(bad, 2))
